@@ -506,6 +506,11 @@ def check(ck):
     for text, ident in OTHERS[10:]:
         for tail in ("", "\nALTER TABLE %s.%s ADD restored_at timestamp;" % (ident[1], ident[2])):
             run_case(ck, "derived-after-source-x-mode", (text, bool(tail)), src + "\n" + text + tail, all_modes, some_combos(2), tags=("other", "derived-after-source"))
+    # (v'') a trailing `word (x)` clause the grammar files under some dialect key although x is no column of the table
+    # (MySQL MERGE ... UNION (t), INCLUDE (x), PCTFREE (10), ...): no mode turns the parse into an error
+    for text in ("ENGINE = MERGE UNION (log_2023)", "PCTFREE (10)", "INCLUDE (zz)", "BUCKETS (4)"):
+        ddl_x, _, _ = make_table("t0", qual=("s1", None), clauses=[text])
+        run_case(ck, "foreign-paren-clause-x-mode", text, ddl_x, all_modes, some_combos(2), tags=("other", "foreign-paren-clause"))
     # (vi) random scripts
     n_rand = 70 if quick else 600
     for i in range(n_rand):
